@@ -39,7 +39,7 @@ import (
 // All executions must give the same block hash, roots, receipts, interchain / timeout /
 // multi-tx metadata and persisted state.
 
-var c01Ops = []string{"xfer", "reqs", "rcpts", "reqT", "empty", "o2m", "o2mr", "wreq", "freezeA", "regC", "votes", "mixed", "xvm", "svcupd", "svcupdP", "strategy", "dapp", "logoutA", "updA"}
+var c01Ops = []string{"xfer", "reqs", "rcpts", "reqT", "empty", "o2m", "o2mr", "wreq", "freezeA", "regC", "votes", "mixed", "xvm", "svcupd", "svcupdP", "strategy", "dapp", "logoutA", "updA", "reqL", "reqrc"}
 
 type c01Inst struct {
 	rule     string
@@ -106,6 +106,16 @@ func (in *c01Inst) build(op string) ([]pb.Transaction, bool) {
 			fix.IBTPTx(fix.KA, w.N.Next(fix.KA), &pb.IBTP{From: a1, To: b2, Index: in.nextReq(a1, b2), TimeoutHeight: 1}, fix.GoodProof),
 			fix.IBTPTx(fix.KB, w.N.Next(fix.KB), &pb.IBTP{From: b2, To: a1, Index: in.nextReq(b2, a1), TimeoutHeight: 1}, fix.GoodProof),
 			fix.IBTPTx(fix.KA, w.N.Next(fix.KA), &pb.IBTP{From: a1, To: b2, Index: in.nextReq(a1, b2) + 1, TimeoutHeight: 2}, fix.GoodProof),
+		}, true
+	case "reqL":
+		// a request expiring three blocks later: its receipt empties a timeout list that a later block can fill again
+		return []pb.Transaction{fix.IBTPTx(fix.KA, w.N.Next(fix.KA), &pb.IBTP{From: a1, To: b2, Index: in.nextReq(a1, b2), TimeoutHeight: 3}, fix.GoodProof)}, true
+	case "reqrc":
+		// a request and its receipt in ONE block: the timeout list it was put on is emptied again before the block ends
+		n := in.nextReq(a1, b2)
+		return []pb.Transaction{
+			fix.IBTPTx(fix.KA, w.N.Next(fix.KA), &pb.IBTP{From: a1, To: b2, Index: n, TimeoutHeight: 1}, fix.GoodProof),
+			fix.IBTPTx(fix.KB, w.N.Next(fix.KB), &pb.IBTP{From: a1, To: b2, Index: n, Type: pb.IBTP_RECEIPT_SUCCESS}, fix.GoodProof),
 		}, true
 	case "svcupd":
 		return []pb.Transaction{w.InvokeTx(fix.KB, constant.ServiceMgrContractAddr, "UpdateService", pb.String(fix.ChainB+":"+fix.Svc2),
